@@ -35,6 +35,8 @@ theorem C20_pipe (fs : List (Fn α)) (s : List α) (h : fs ≠ []) :
 example : pipe [total (List.map (4 * · + 1)), total (List.map (4 * · + 2))] [1] = .ok [22] := by
   rw [C20_pipe _ _ (by simp)]; decide
 
+example : ([List.map (· + 1), List.reverse] : List (List Int → List Int)) ≠ [] := by simp
+
 theorem C20_pipe_total (fs : List (List α → List α)) (s : List α) (h : fs ≠ []) :
     pipe (fs.map total) s = .ok (fs.foldl (fun acc f => f acc) s) := by
   rw [pipe_eq_foldl _ _ (by simpa using h)]
@@ -187,7 +189,9 @@ theorem C20_trampoline_first_stop (fn : List α → StepOut α) (fuel : Nat) (s 
   rfl
 example : Spec.stops (trStep 3 (-1) 0) [0, 5] 2 = true ∧ Spec.stops (trStep 3 (-1) 0) [0, 5] 1 = false := by decide
 
+example : ∀ j, j < 2 → Spec.stops (trStep 5 (-1) 0) [0] j = false := by decide
 /-- no stopping iterate within the fuel: the loop is still running -/
+
 theorem C20_trampoline_runs_on (fn : List α → StepOut α) (fuel : Nat) (s : List α)
     (h : ∀ j, j < fuel → Spec.stops fn s j = false) : trampoline fn fuel s = .hang := by
   rw [C20_trampoline]
@@ -299,13 +303,19 @@ theorem C20_curry_script (fn : CurryFn) (ts : List String) :
   unfold runScript
   exact congrArg (fun outs => " | ".intercalate (List.reverse outs)) h
 
-/-- the protocol shape the transition system assumes for `Call` (lock; done-check; append; invoke; store;
-    unlock) is the one the extractor finds in fp.go on this run -/
-def expectedCallSkeleton : String :=
-  "call(callM.Lock) if[get(isDone) call(isDone.Get)]{get(args) call(append) set(args) get(args) callfn(fn) set(result)} call(callM.Unlock) return"
+/-- the protocol shapes that implement the atom sequence the transition system assumes for `Call` (lock;
+    done-check; append; invoke; store; unlock): the current text, the same with a deferred unlock, and both
+    with the done-check spelled `IsDone()` -/
+def acceptedCallSkeletons : List String := [
+  "call(callM.Lock) if[get(isDone) call(isDone.Get)]{get(args) call(append) set(args) get(args) callfn(fn) set(result)} call(callM.Unlock) return",
+  "call(callM.Lock) defer{call(callM.Unlock)} if[get(isDone) call(isDone.Get)]{get(args) call(append) set(args) get(args) callfn(fn) set(result)} return",
+  "call(callM.Lock) if[call(IsDone)]{get(args) call(append) set(args) get(args) callfn(fn) set(result)} call(callM.Unlock) return",
+  "call(callM.Lock) defer{call(callM.Unlock)} if[call(IsDone)]{get(args) call(append) set(args) get(args) callfn(fn) set(result)} return"]
 
+/-- closing theorem over the skeletons regenerated from fp.go on this run: `Call` has one of the accepted
+    shapes, `MarkDone`/`IsDone` are a single atomic store/load of the flag, `Result` reads the field -/
 theorem C20_curry_call_skeleton :
-    FpgoVerif.Gen.skeletonOf "CurryDef.Call" = some expectedCallSkeleton ∧
+    (acceptedCallSkeletons.any (fun s => FpgoVerif.Gen.skeletonOf "CurryDef.Call" == some s)) = true ∧
     FpgoVerif.Gen.skeletonOf "CurryDef.MarkDone" = some "get(isDone) call(isDone.Set)" ∧
     FpgoVerif.Gen.skeletonOf "CurryDef.IsDone" = some "get(isDone) call(isDone.Get) return" ∧
     FpgoVerif.Gen.skeletonOf "CurryDef.Result" = some "get(result) return" := by
